@@ -1,4 +1,4 @@
-\* the code as it is against the PURE property: TLC must find H8 (expected violation)
+\* the code as it is (FixNonRequest = FALSE, known finding) against the PURE property (expected violation)
 CONSTANTS
   Methods <- MCMethods
   EntryAlphabet <- EntriesSmall
@@ -8,7 +8,7 @@ CONSTANTS
   BatchDisabled = FALSE
   FixNotif = TRUE
   FixNonRequest = FALSE
-  FixLongWs = FALSE
+  FixLongWs = TRUE
   FarChoices = {FALSE}
 INIT Init
 NEXT Next
